@@ -99,6 +99,15 @@ impl<'a> World<'a> {
         if d.val_len > 1024 {
             self.stats.probe("val-file>1KiB");
         }
+        if d.key_len > 16 * 1024 {
+            self.stats.probe("key-file>16KiB");
+        }
+        if d.val_len > 16 * 1024 {
+            self.stats.probe("val-file>16KiB");
+        }
+        if d.val_len > 2 * 1024 * 1024 {
+            self.stats.probe("val-file>2MiB");
+        }
         if d.key_len > 128 * 1024 {
             self.stats.probe("key-file>128KiB");
         }
